@@ -244,3 +244,15 @@ META["C19"] = M(
          "error event monitor (to_dense of a large operator, products with >= n/4 columns, generic base case selected for "
          "the structured operand) and a tracemalloc peak bound of 64 x (operand + factor storage + n) x itemsize; results are "
          "also compared with a factor-wise reference; distinct = kind x entry point x algorithm variant")
+
+META["C20"] = M(
+    shards={"quick": 16, "thorough": 64}, budget={"quick": 45, "thorough": 800},
+    floors={"quick": {"evals": 15000, "distinct": 1500}, "thorough": {"evals": 600000, "distinct": 60000}},
+    required=["entries", "sub-operator-dense", "sub-operator-right-product", "sub-operator-left-product", "result-kind", "sub-operator-shape"],
+    rule="operator trees of every kind and nesting (as C01, clean), square / tall / wide with dimensions 1..6; index expressions "
+         "A[i,j], A[i], A[i,:], A[i,slice], A[:,j], A[slice,j], A[slice,slice], A[slice], A[rows,cols] with integer index "
+         "arrays (unsorted, repeated, negative), mixed array/slice, and A[[i..],[j..]] with lists; integers over [-n, n), slices "
+         "over start/stop in [-n, n] incl. None and steps in {None,1,2,3,-1,-2} (empty slices included); each compared with "
+         "NumPy indexing of the reference matrix (outer selection for index arrays, element pairs for lists) in value, shape and "
+         "kind (entry / vector / sub-operator); sub-operators through to_dense, right and left products with real and complex "
+         "operands; distinct = operator structure + index forms")
